@@ -6,7 +6,7 @@ from fractions import Fraction
 
 from ..core import Run, dotted, norm, AnalysisError
 from ..dim import World
-from ..flow import Fn, kw, must_all, monomial, numeric_consts, node_of
+from ..flow import Fn, kw, must_all, monomial, numeric_consts, node_of, conditions_for
 
 EXPLANATION = (
     "Dataflow facts about the ~100-line oracle in symplyphysics/core/approx.py, decided on a statement CFG with dominators, "
@@ -83,7 +83,17 @@ def check(run: Run) -> None:
         if r.ast.value is None:
             run.violate("A2", f"{f.qual}:return:None", f.mod, r.ast, "returns None")
             continue
+        if isinstance(r.ast.value, ast.Constant) and r.ast.value.value is False:
+            continue  # a negative verdict needs no justification
         implied = must_all(f.cfg, r, r.ast.value)
+        # what the path to this return has already established: `if not c: return False` before it means c holds here
+        for t, pol in (conditions_for(f.fn, r.ast) or []):
+            if isinstance(t, str):
+                continue
+            if pol is True:
+                implied += must_all(f.cfg, r, t)
+            elif isinstance(t, ast.UnaryOp) and isinstance(t.op, ast.Not):
+                implied += must_all(f.cfg, r, t.operand)
         cover = set()
         for c in implied:
             cn = node_of(f.cfg, c)
@@ -140,14 +150,25 @@ def check(run: Run) -> None:
     for r in rets:
         run.ob("A4", f"return@{norm(r.ast, 60)}")
         v = r.ast.value
+        vn = r
+        for _ in range(4):  # a verdict kept in a local first: follow the single definition
+            if isinstance(v, ast.Name):
+                ds = g.cfg.reaching().get(vn, {}).get(v.id)
+                if ds and len(ds) == 1:
+                    dn = next(iter(ds))
+                    if dn.kind == "stmt" and isinstance(dn.ast, ast.Assign) and len(dn.ast.targets) == 1 and isinstance(dn.ast.targets[0], ast.Name):
+                        v, vn = dn.ast.value, dn
+                        continue
+            break
+        r_at = vn
         ok = False
         why = "the verdict is not `lhs == approx(rhs, rel=..., abs=...)`"
         if isinstance(v, ast.Compare) and len(v.ops) == 1 and isinstance(v.ops[0], ast.Eq):
             sides = [v.left, v.comparators[0]]
             for a, b in (sides, sides[::-1]):
-                sa = g.slice(r, a)
-                sb = g.slice(r, b)
-                if sa.params == {"lhs"} and not sa.calls and not numeric_consts(sa) and "pytest.approx" in {g.callee(node_of(g.cfg, c) or r, c) for c in sb.call_nodes}:
+                sa = g.slice(r_at, a)
+                sb = g.slice(r_at, b)
+                if sa.params == {"lhs"} and not sa.calls and not numeric_consts(sa) and "pytest.approx" in {g.callee(node_of(g.cfg, c) or r_at, c) for c in sb.call_nodes}:
                     # the approx call feeding b
                     for c in sb.call_nodes:
                         cn = node_of(g.cfg, c)
